@@ -350,7 +350,7 @@ impl Prop for C08 {
     }
     fn plan(&self, tier: Tier) -> Plan {
         match tier {
-            Tier::Quick => Plan { cases: 400_000, tape_len: 40 },
+            Tier::Quick => Plan { cases: 2_000_000, tape_len: 40 },
             Tier::Thorough => Plan { cases: 12_000_000, tape_len: 48 },
         }
     }
